@@ -142,6 +142,22 @@ static inline bool parse_complex(const std::string &s0, C &out, NumText &re, Num
     return true;
 }
 
+// yaml-cpp 0.7 decodes the double-quoted escapes \N (U+0085) and \_ (U+00A0), which libyaml's
+// emitter uses, to the single Latin-1 bytes 0x85 / 0xA0 instead of UTF-8: put the UTF-8 form back
+static inline std::string scalar_of(const YAML::Node &n) {
+    const std::string &s = n.Scalar();
+    std::string o; size_t i = 0;
+    while (i < s.size()) {
+        unsigned char ch = (unsigned char)s[i];
+        size_t len = ch < 0x80 ? 1 : (ch & 0xE0) == 0xC0 ? 2 : (ch & 0xF0) == 0xE0 ? 3 : (ch & 0xF8) == 0xF0 ? 4 : 0;
+        bool ok = len > 0 && i + len <= s.size();
+        for (size_t k = 1; ok && k < len; k++) if (((unsigned char)s[i + k] & 0xC0) != 0x80) ok = false;
+        if (ok) { o.append(s, i, len); i += len; continue; }
+        if (ch == 0x85 || ch == 0xA0) o += '\xC2';
+        o += (char)ch; i++;
+    }
+    return o;
+}
 // remove the descriptor quoting vnaproperty puts on map keys in the file (backslash quotes the next byte)
 static inline std::string unquote_key(const std::string &k) {
     std::string o;
@@ -152,12 +168,12 @@ static inline doc::NodeP yaml_to_doc(const YAML::Node &n, std::string &err, int 
     using namespace doc;
     if (depth > 70) { err = "property tree too deep"; return nullptr; }
     if (!n.IsDefined() || n.IsNull()) return nullptr;
-    if (n.IsScalar()) return Node::scalar(n.Scalar());
+    if (n.IsScalar()) return Node::scalar(scalar_of(n));
     if (n.IsMap()) {
         NodeP m = Node::mk(Node::MAP);
         for (auto it = n.begin(); it != n.end(); ++it) {
             if (!it->first.IsScalar()) { err = "non-scalar property key"; return nullptr; }
-            m->map.push_back({unquote_key(it->first.Scalar()), yaml_to_doc(it->second, err, depth + 1)});
+            m->map.push_back({unquote_key(scalar_of(it->first)), yaml_to_doc(it->second, err, depth + 1)});
             if (!err.empty()) return nullptr;
         }
         return m;
@@ -249,7 +265,7 @@ static inline bool read(const std::string &text, File &out, std::string &err) {
             bool have_name = false, have_z0 = false;
             for (auto it = cn.begin(); it != cn.end(); ++it) {
                 const std::string k = it->first.Scalar();
-                if (k == "name") { if (!it->second.IsScalar()) { err = "calibration name is not a (non-null) scalar"; return false; } cal.name = it->second.Scalar(); have_name = true; }
+                if (k == "name") { if (!it->second.IsScalar()) { err = "calibration name is not a (non-null) scalar"; return false; } cal.name = scalar_of(it->second); have_name = true; }
                 else if (k == "type") { if (!it->second.IsScalar()) { err = "type is not a scalar"; return false; } cal.type = it->second.Scalar(); }
                 else if (k == "rows") { if (!read_int(it->second, "rows", cal.rows, err)) return false; }
                 else if (k == "columns") { if (!read_int(it->second, "columns", cal.cols, err)) return false; }
